@@ -40,8 +40,8 @@ Proof. exact reorder_perm. Qed.
 Print Assumptions C04_reorder_total.
 
 (* The same without the well-formedness hypothesis: a chain that binds never hands a call an
-   invalid value, whatever the providers do - for every case without Reorder annotations and init
-   function outright, otherwise under the two positional conditions of WfProofs. *)
+   invalid value, whatever the providers do - for every case without Reorder annotations outright,
+   otherwise under the positional condition of WfProofs. *)
 Theorem C04_run_safe_every_plain_chain : forall c pl b,
   plain_case c = true -> bind_chain c = Ok (pl, b) ->
   forall (W : Type) beh_fn beh_wrap steps (w0 : W),
@@ -50,7 +50,7 @@ Proof. exact run_safe_plain. Qed.
 Print Assumptions C04_run_safe_every_plain_chain.
 
 Theorem C04_run_safe_every_bound_chain : forall c pl b,
-  bind_chain c = Ok (pl, b) -> runs_after_invoke pl = true -> init_covered pl = true ->
+  bind_chain c = Ok (pl, b) -> runs_after_invoke pl = true ->
   forall (W : Type) beh_fn beh_wrap steps (w0 : W),
     ~ In RPanic (snd (run_session W beh_fn beh_wrap b (mkSess W w0 (bd_base0 b) false true) steps)).
 Proof. exact run_safe_bound. Qed.
